@@ -4,6 +4,7 @@
 
    input   <id> P <token> <token> ...        parse a token list
            <id> R <s-expression>             print / norm a tree
+           <id> S <hex body> | L <hex literal> | Q <hex bytes> | N dec|hex <digits>   literal denotations (LexStr.v, Lex.v)
    output  <id> ok <ast> | <id> err <index of offending token> | <id> unsupported | <id> oof
            <id> <tokens> @@ <norm ast> @@ <plain 0/1> @@ <result of parse (print e)>       *)
 open Model
@@ -161,6 +162,18 @@ let () =
       print_endline (String.concat " @@ " [
         id ^ " " ^ String.concat " " (List.map string_of_tok ts);
         show_exp (norm e); b2s (plain e); show_res (List.length ts) (parse ts) ])
+    | [id; "S"; body] ->
+      (* short string body (between the quotes, line ends normalised by the caller) -> denoted bytes *)
+      let l = List.map n_of_int (bytes_of_hex body) in
+      (match unescape l with
+       | Some v -> print_endline (id ^ " s" ^ hex_of_bytes (List.map int_of_n v))
+       | None -> print_endline (id ^ " none"))
+    | [id; "L"; lit] ->
+      let l = List.map n_of_int (bytes_of_hex lit) in
+      print_endline (id ^ " s" ^ hex_of_bytes (List.map int_of_n (long_denot l)))
+    | [id; "Q"; bytes] ->
+      let l = List.map n_of_int (bytes_of_hex bytes) in
+      print_endline (id ^ " " ^ hex_of_bytes (List.map int_of_n (quote l)))
     | [id; "N"; kind; digits] ->
       (* integer numerals: S (manual) and IM (ast.NewNumber) denotations; decimal output via hex of the Z *)
       let ds = List.init (String.length digits) (fun i -> z_of_int (hexval digits.[i])) in
